@@ -964,3 +964,287 @@ Example ex_sat_zbdd_count :
   sat_zbdd ex_sat_zbdd 4 4 (RN 6) = Some 10%N /\
   count_levels 3 (fun_zbdd ex_sat_zbdd (RN 6)) = 5%N.
 Proof. vm_compute. repeat split; reflexivity. Qed.
+
+(** * Part D: saturating arithmetic ([Saturating<u64>], [Saturating<u128>]) *)
+
+Section Saturating.
+Variable w : N.
+Hypothesis Hw : (2 <= w)%N.
+
+Let MAX := sat_max w.
+
+Lemma pow_w_ge4 : (4 <= 2 ^ w)%N.
+Proof. change 4%N with (2 ^ 2)%N. apply N.pow_le_mono_r; [discriminate | exact Hw]. Qed.
+
+Lemma max_ge3 : (3 <= MAX)%N.
+Proof. unfold MAX, sat_max. pose proof pow_w_ge4. lia. Qed.
+
+(** ** BDD *)
+
+Section SatBddSat.
+Variable s : snap.
+Hypothesis H : WF s.
+Hypothesis Hkind : s_kind s = KBdd.
+Variable vars : nat.
+Hypothesis Hvars : nlevels s <= vars.
+
+Let n := nlevels s.
+Let K : N := (2 ^ N.of_nat (vars - n))%N.
+Let T (r : ref) : N := count_levels n (fun_bdd s r).
+
+Lemma T_term : forall t v, term_val s t = Some v ->
+  T (RT t) = if N.eqb v 1 then (2 ^ N.of_nat n)%N else 0%N.
+Proof.
+  intros t v Ev. unfold T, count_levels.
+  rewrite (cnt_ext n 0 (fun_bdd s (RT t)) (fun _ => N.eqb v 1)).
+  2:{ intros a. unfold fun_bdd. rewrite semk_T, Ev. reflexivity. }
+  apply cnt_const.
+Qed.
+
+(** only the true terminal is satisfied by every assignment (a node with two
+    such children would be redundant) *)
+Lemma full_is_true : forall k r, ref_ok s r -> n - rlevel s r <= k ->
+  T r = (2 ^ N.of_nat n)%N -> exists t, r = RT t /\ term_val s t = Some 1%N.
+Proof.
+  induction k as [k IH] using lt_wf_ind. intros r Hok Hk HT.
+  destruct r as [t|id].
+  - destruct Hok as [v Ev]. rewrite (T_term t v Ev) in HT. exists t. split; [reflexivity|].
+    destruct (N.eqb_spec v 1) as [->|_]; [exact Ev|].
+    pose proof (pow2_pos (N.of_nat n)). lia.
+  - exfalso. destruct Hok as [nd E]. rewrite (rlevel_node s id nd E) in Hk.
+    pose proof (wf_level s H id nd E) as Hlv. fold n in Hlv.
+    destruct (two_children s id nd H (bdd_binary s Hkind) E) as [e0 [e1 Hc]].
+    destruct (node_children_ok s H id nd e0 e1 E Hc) as [[O0 L0] [O1 L1]].
+    pose proof (total_node s H vars Hvars id nd e0 e1 E Hc) as Ht. fold n in Ht. fold (T (eref e0)) in Ht.
+    fold (T (eref e1)) in Ht. fold (T (RN id)) in Ht.
+    assert (B0 : (T (eref e0) <= 2 ^ N.of_nat n)%N) by apply cnt_le.
+    assert (B1 : (T (eref e1) <= 2 ^ N.of_nat n)%N) by apply cnt_le.
+    destruct (IH (n - rlevel s (eref e0)) ltac:(lia) (eref e0) O0 (le_n _) ltac:(lia)) as [t0 [R0 V0]].
+    destruct (IH (n - rlevel s (eref e1)) ltac:(lia) (eref e1) O1 (le_n _) ltac:(lia)) as [t1 [R1 V1]].
+    assert (t0 = t1) by (apply (term_val_inj s t0 t1 1%N H V0 V1)). subst t1.
+    assert (Hnb : s_kind s <> KBcdd) by (rewrite Hkind; discriminate).
+    assert (I0 : In e0 (nchildren nd)) by (rewrite Hc; simpl; auto).
+    assert (I1 : In e1 (nchildren nd)) by (rewrite Hc; simpl; auto).
+    assert (e0 = e1).
+    { apply edge_ext; [congruence|].
+      rewrite (wf_tags s H Hnb id nd e0 E I0), (wf_tags s H Hnb id nd e1 E I1). reflexivity. }
+    pose proof (wf_reduced s H id nd E) as Hr. unfold reduced in Hr. rewrite Hkind in Hr.
+    apply Hr. rewrite Hc. subst e1. intros x y [<-|[<-|[]]] [<-|[<-|[]]]; reflexivity.
+Qed.
+
+Lemma node_not_full : forall id nd, find_node s id = Some nd -> (T (RN id) + 1 <= 2 ^ N.of_nat n)%N.
+Proof.
+  intros id nd E.
+  assert (B : (T (RN id) <= 2 ^ N.of_nat n)%N) by apply cnt_le.
+  destruct (N.eq_dec (T (RN id)) (2 ^ N.of_nat n)) as [Heq|Hne]; [|lia].
+  destruct (full_is_true _ (RN id) ltac:(exists nd; exact E) (le_n _) Heq) as [t [R _]]. discriminate.
+Qed.
+
+Definition run_sat (f : nat) (r : ref) : option N := sat_bdd_sat w s f vars r.
+
+Lemma run_sat_T : forall f t, run_sat f (RT t) =
+  match term_val s t with
+  | Some v => Some (if N.eqb v 1 then n_shl (sat_ops w) 1%N vars else 0%N)
+  | None => None
+  end.
+Proof. intros. unfold run_sat, sat_bdd_sat. rewrite walk_T. reflexivity. Qed.
+
+Lemma run_sat_node : forall f id nd e0 e1,
+  find_node s id = Some nd -> nchildren nd = [e0; e1] ->
+  run_sat (S f) (RN id) =
+  match run_sat f (eref e0), run_sat f (eref e1) with
+  | Some a, Some b => Some (n_shr (sat_ops w) (n_add (sat_ops w) a b) 1)
+  | _, _ => None
+  end.
+Proof.
+  intros f id nd e0 e1 E Hc. unfold run_sat, sat_bdd_sat.
+  rewrite (walk_node _ s f id false nd e0 e1 E Hc). reflexivity.
+Qed.
+
+Lemma K_vars_s : (K * 2 ^ N.of_nat n = 2 ^ N.of_nat vars)%N.
+Proof. unfold K. rewrite <- pow2_add. f_equal. f_equal. lia. Qed.
+
+Lemma K_pos : (1 <= K)%N.
+Proof. unfold K. pose proof (pow2_pos (N.of_nat (vars - n))). lia. Qed.
+
+(** [1 << vars] in the saturating type *)
+Lemma shl_one : n_shl (sat_ops w) 1%N vars = saturate w vars (2 ^ N.of_nat vars)%N.
+Proof.
+  simpl n_shl. unfold saturate. destruct (N.ltb_spec (N.of_nat vars) w) as [Hlt|Hge].
+  - rewrite N.mul_1_l. apply N.mod_small. apply N.pow_lt_mono_r; [reflexivity | exact Hlt].
+  - pose proof (pow2_pos (N.of_nat vars)).
+    destruct (N.eqb_spec (2 ^ N.of_nat vars) 0); [lia | reflexivity].
+Qed.
+
+(** one step of the recursion: the saturating combination of the (saturated)
+    children values is the saturated exact value *)
+Lemma comb_saturate : forall X a b, (a + b = X * 2)%N -> (X + 1 <= 2 ^ N.of_nat vars)%N ->
+  n_shr (sat_ops w) (n_add (sat_ops w) (saturate w vars a) (saturate w vars b)) 1 =
+  saturate w vars ((a + b) / 2)%N.
+Proof.
+  intros X a b Hab HX. rewrite Hab, N.div_mul by discriminate.
+  pose proof max_ge3 as Hm. pose proof pow_w_ge4 as H4.
+  simpl n_shr. simpl n_add. fold MAX. unfold saturate. fold MAX.
+  destruct (N.ltb_spec (N.of_nat vars) w) as [Hlt|Hge].
+  - assert (Hp : (2 * 2 ^ N.of_nat vars <= 2 ^ w)%N).
+    { rewrite <- N.pow_succ_r'. apply N.pow_le_mono_r; [discriminate | lia]. }
+    assert (Hmx : (MAX = 2 ^ w - 1)%N) by reflexivity.
+    rewrite N.min_l by lia.
+    destruct (N.eqb_spec (a + b) MAX) as [Heq|_]; [lia|].
+    change (2 ^ N.of_nat 1)%N with 2%N. rewrite Hab. apply N.div_mul. discriminate.
+  - destruct (N.eqb_spec a 0) as [->|Ha]; destruct (N.eqb_spec b 0) as [->|Hb].
+    + assert (X = 0%N) by lia. subst X. rewrite N.min_l by lia.
+      destruct (N.eqb_spec (0 + 0) MAX) as [Heq|_]; [lia|]. reflexivity.
+    + rewrite N.min_r by lia. rewrite N.eqb_refl.
+      destruct (N.eqb_spec X 0); [lia | reflexivity].
+    + rewrite N.min_r by lia. rewrite N.eqb_refl.
+      destruct (N.eqb_spec X 0); [lia | reflexivity].
+    + rewrite N.min_r by lia. rewrite N.eqb_refl.
+      destruct (N.eqb_spec X 0); [lia | reflexivity].
+Qed.
+
+Lemma run_sat_main : forall f r, ref_ok s r -> n - rlevel s r < f ->
+  run_sat f r = Some (saturate w vars (K * T r)).
+Proof.
+  induction f as [|f IH]; intros r Hok Hf; [lia|].
+  destruct r as [t|id].
+  - rewrite run_sat_T. destruct Hok as [v Ev]. rewrite Ev, (T_term t v Ev), shl_one. f_equal.
+    destruct (N.eqb v 1).
+    + rewrite K_vars_s. reflexivity.
+    + rewrite N.mul_0_r. unfold saturate. destruct (N.of_nat vars <? w)%N; reflexivity.
+  - destruct Hok as [nd E]. rewrite (rlevel_node s id nd E) in Hf.
+    destruct (two_children s id nd H (bdd_binary s Hkind) E) as [e0 [e1 Hc]].
+    destruct (node_children_ok s H id nd e0 e1 E Hc) as [[O0 L0] [O1 L1]].
+    pose proof (rlevel_le s H (eref e0)) as B0. pose proof (rlevel_le s H (eref e1)) as B1.
+    fold n in B0, B1.
+    rewrite (run_sat_node f id nd e0 e1 E Hc).
+    rewrite (IH (eref e0) O0), (IH (eref e1) O1) by lia. f_equal.
+    pose proof (total_node s H vars Hvars id nd e0 e1 E Hc) as Ht. fold n in Ht. fold (T (eref e0)) in Ht.
+    fold (T (eref e1)) in Ht. fold (T (RN id)) in Ht.
+    pose proof (node_not_full id nd E) as Hnf. pose proof K_vars_s as HK. pose proof K_pos as HK1.
+    assert (Hab : (K * T (eref e0) + K * T (eref e1) = K * T (RN id) * 2)%N).
+    { rewrite <- N.mul_add_distr_l, Ht. lia. }
+    rewrite (comb_saturate (K * T (RN id))%N _ _ Hab).
+    + rewrite Hab, N.div_mul by discriminate. reflexivity.
+    + rewrite <- HK. nia.
+Qed.
+
+End SatBddSat.
+
+(** The BDD recursion run in [Saturating<uW>] returns the exact count as long
+    as [2^vars] is representable ([vars < W]); otherwise it returns the
+    out-of-range marker, except for the unsatisfiable function, whose count 0
+    is exact in every type. *)
+Theorem sat_bdd_saturating : forall s vars r, WF s -> s_kind s = KBdd -> nlevels s <= vars ->
+  ref_ok s r ->
+  sat_bdd_sat w s (S (nlevels s)) vars r =
+  option_map (saturate w vars) (sat_bdd s (S (nlevels s)) vars r).
+Proof.
+  intros s vars r H Hk Hv Hok.
+  rewrite (sat_bdd_correct s vars r H Hk Hv Hok). simpl option_map.
+  exact (run_sat_main s H Hk vars Hv (S (nlevels s)) r Hok ltac:(lia)).
+Qed.
+
+Corollary sat_bdd_saturating_exact : forall s vars r, WF s -> s_kind s = KBdd ->
+  nlevels s <= vars -> (N.of_nat vars < w)%N -> ref_ok s r ->
+  sat_bdd_sat w s (S (nlevels s)) vars r =
+  Some (2 ^ N.of_nat (vars - nlevels s) * count_levels (nlevels s) (fun_bdd s r))%N.
+Proof.
+  intros s vars r H Hk Hv Hlt Hok. rewrite (sat_bdd_saturating s vars r H Hk Hv Hok).
+  rewrite (sat_bdd_correct s vars r H Hk Hv Hok). simpl. unfold saturate.
+  destruct (N.ltb_spec (N.of_nat vars) w); [reflexivity | lia].
+Qed.
+
+(** ** ZBDD *)
+
+Section SatZbddSat.
+Variable s : snap.
+Hypothesis H : WF s.
+Hypothesis Hkind : s_kind s = KZbdd.
+Hypothesis Hn : (N.of_nat (nlevels s) < w)%N.
+
+Let n := nlevels s.
+
+Definition runz (f : nat) (r : ref) : option N := walk (zbdd_scheme (sat_ops w)) s f r false.
+
+Lemma runz_main : forall f r, ref_ok s r -> n - rlevel s r < f ->
+  runz f r = paths_zbdd s f r.
+Proof.
+  induction f as [|f IH]; intros r Hok Hf; [lia|].
+  destruct r as [t|id].
+  - unfold runz, paths_zbdd. rewrite !walk_T. reflexivity.
+  - destruct Hok as [nd E]. pose proof Hf as Hf'. rewrite (rlevel_node s id nd E) in Hf.
+    destruct (two_children s id nd H (zbdd_binary s Hkind) E) as [e0 [e1 Hc]].
+    assert (I0 : In e0 (nchildren nd)) by (rewrite Hc; simpl; auto).
+    assert (I1 : In e1 (nchildren nd)) by (rewrite Hc; simpl; auto).
+    destruct (wf_child s H id nd e0 E I0) as [O0 L0].
+    destruct (wf_child s H id nd e1 E I1) as [O1 L1].
+    pose proof (rlevel_le s H (eref e0)) as B0. pose proof (rlevel_le s H (eref e1)) as B1.
+    fold n in B0, B1.
+    pose proof (paths_main s H Hkind (S f) (RN id) ltac:(exists nd; exact E) Hf') as Hp.
+    rewrite (paths_node s f id nd e0 e1 E Hc) in Hp.
+    rewrite (paths_node s f id nd e0 e1 E Hc).
+    unfold runz. rewrite (walk_node _ s f id false nd e0 e1 E Hc). simpl sc_tag.
+    fold (runz f (eref e0)). fold (runz f (eref e1)).
+    rewrite (IH (eref e0) O0), (IH (eref e1) O1) by lia.
+    destruct (paths_zbdd s f (eref e0)) as [a|]; [|reflexivity].
+    destruct (paths_zbdd s f (eref e1)) as [b|]; [|reflexivity].
+    assert (Hab : (a + b)%N = Zc s (rlevel s (RN id)) (RN id)) by congruence. simpl sc_comb. simpl n_add. f_equal. apply N.min_l.
+    rewrite Hab. unfold Zc.
+    pose proof (cnt_le (nlevels s - rlevel s (RN id)) (rlevel s (RN id)) (Fz s (rlevel s (RN id)) (RN id))) as Hle.
+    assert (Hp2 : (2 ^ N.of_nat (nlevels s - rlevel s (RN id)) <= 2 ^ N.of_nat (nlevels s))%N)
+      by (apply N.pow_le_mono_r; [discriminate | lia]).
+    assert (Hp3 : (2 * 2 ^ N.of_nat (nlevels s) <= 2 ^ w)%N).
+    { rewrite <- N.pow_succ_r'. apply N.pow_le_mono_r; [discriminate | lia]. }
+    pose proof pow_w_ge4. unfold sat_max. lia.
+Qed.
+
+End SatZbddSat.
+
+(** ZBDD counts in [Saturating<uW>] are exact while [2^vars] is representable *)
+Theorem sat_zbdd_saturating_exact : forall s vars r, WF s -> s_kind s = KZbdd ->
+  nlevels s <= vars -> (N.of_nat vars < w)%N -> ref_ok s r ->
+  sat_zbdd_sat w s (S (nlevels s)) vars r =
+  Some (2 ^ N.of_nat (vars - nlevels s) * count_levels (nlevels s) (fun_zbdd s r))%N.
+Proof.
+  intros s vars r H Hk Hv Hlt Hok. unfold sat_zbdd_sat. fold (runz s (S (nlevels s)) r).
+  rewrite (runz_main s H Hk ltac:(lia) (S (nlevels s)) r Hok) by lia.
+  rewrite (paths_zbdd_correct s r H Hk Hok). simpl option_map. f_equal.
+  unfold zbdd_shift. destruct (Nat.leb_spec (nlevels s) vars) as [_|X]; [|lia].
+  simpl n_shl. destruct (N.ltb_spec (N.of_nat (vars - nlevels s)) w) as [_|X]; [|lia].
+  rewrite N.mul_comm. apply N.mod_small.
+  pose proof (cnt_le (nlevels s) 0 (fun_zbdd s r)) as Hle. fold (count_levels (nlevels s) (fun_zbdd s r)) in Hle.
+  assert (Hp : (2 ^ N.of_nat (vars - nlevels s) * 2 ^ N.of_nat (nlevels s) = 2 ^ N.of_nat vars)%N).
+  { rewrite <- pow2_add. f_equal. f_equal. lia. }
+  assert (Hq : (2 ^ N.of_nat vars < 2 ^ w)%N) by (apply N.pow_lt_mono_r; [reflexivity | exact Hlt]).
+  pose proof (pow2_pos (N.of_nat (vars - nlevels s))). nia.
+Qed.
+
+End Saturating.
+
+(** [Shl] of [Saturating] only checks the shift amount: for [vars >= 64] the
+    ZBDD version ([count << (vars - levels)]) can lose the high bits instead of
+    returning the marker.  The tautology over 3 levels (8 models) with
+    [vars = 64]: exact count 2^64, computed 0. *)
+Definition ex_zbdd_taut : snap :=
+  mkSnap KZbdd
+    (PositiveMap.add 3%positive (mkNode 0 [xe (RN 2); xe (RN 2)] 0 1)
+    (PositiveMap.add 2%positive (mkNode 1 [xe (RN 1); xe (RN 1)] 1 2)
+    (PositiveMap.add 1%positive (mkNode 2 [xe (RT 1); xe (RT 1)] 2 2)
+       (PositiveMap.empty node))))
+    [(0%N, 0%N); (1%N, 1%N)]
+    [0; 1; 2] [0; 1; 2]
+    [(0%N, xe (RN 3))].
+
+Example ex_zbdd_shl_wraps :
+  wf_full_b ex_zbdd_taut = true /\
+  sat_zbdd ex_zbdd_taut 4 64 (RN 3) = Some (2 ^ 64)%N /\
+  sat_zbdd_sat 64 ex_zbdd_taut 4 64 (RN 3) = Some 0%N /\
+  sat_u64 64 (2 ^ 64) = sat_max 64.
+Proof. vm_compute. repeat split; reflexivity. Qed.
+
+Example ex_sat_bdd_u64 :
+  sat_bdd_sat 64 ex_sat_bdd 4 63 (RN 4) = Some (5 * 2 ^ 60)%N /\
+  sat_bdd_sat 64 ex_sat_bdd 4 64 (RN 4) = Some (sat_max 64) /\
+  sat_bdd_sat 64 ex_sat_bdd 4 64 (RT 0) = Some 0%N.
+Proof. vm_compute. repeat split; reflexivity. Qed.
